@@ -113,9 +113,10 @@ MechAlias(c) == IF ReturnsSelf(c) THEN alias \cup {<<c.rt, Len(m.objs) + 1>>, <<
 \* --- one step ----------------------------------------------------------------------------------------
 IsCall(c) == c.kind \in {"get", "setitem", "update", "items", "to_table", "from_table"}
 OutJ(c) == IF c.kind = "items" THEN [t |-> SessOut(s, c), items |-> TItems(SessOut(s, c))] ELSE SessOut(s, c)
-Step(c) == /\ n < Depth /\ SessOk(s, c)
+\* (guards are written `.. = TRUE`: inside an action TLC explores BOTH sides of a disjunction, as a value it short-circuits)
+Step(c) == /\ n < Depth /\ SessOk(s, c) = TRUE
            /\ (n = 0 => IsCall(c))                       \* a session starts with a public call (an edit first is another world)
-           /\ s' = SessNext(s, c) /\ SessHeapOk(s'.objs)
+           /\ s' = SessNext(s, c) /\ SessHeapOk(s'.objs) = TRUE
            /\ m' = MechNext(c) /\ alias' = MechAlias(c)
            /\ ok' = (ok /\ (SessOk(m, c) /\ MechOut(c) = SessOut(s, c)))
            /\ n' = n + 1
@@ -143,7 +144,7 @@ DoFromTable == \E c \in {[kind |-> "from_table", tb |-> tb, pat |-> pat] : tb \i
 \* the caller's own actions
 EditCells(i) == {None} \cup {RefCell(j) : j \in {x \in Objs : x > i}}
 DoEdit     == \E c \in UNION {{[kind |-> "edit", obj |-> i, key |-> k, cell |-> cl] : k \in Key, cl \in EditCells(i)} : i \in Objs} :
-                  /\ (c.key \in DOMAIN s.objs[c.obj]) => s.objs[c.obj][c.key] # c.cell
+                  /\ ((c.key \in DOMAIN s.objs[c.obj]) => s.objs[c.obj][c.key] # c.cell) = TRUE
                   /\ Step(c)
 DoSetPath  == \E c \in {[kind |-> "setpath", p |-> p, keys |-> q] : p \in PathI, q \in PathQ} : c.keys # s.paths[c.p].keys /\ Step(c)
 DoSetRow   == \E c \in UNION {{[kind |-> "setrow", tb |-> tb, row |-> r, var |-> "y", val |-> v] :
